@@ -45,7 +45,17 @@ SelfSerialClauses(o) ==
   ELSE (IF T(r.eq) /\ ~T(r.lt) /\ ~T(r.gt) THEN <<>> ELSE <<"date_differs_from_its_own_serial">>)
        \o (IF T(r.below) /\ T(r.above) THEN <<>> ELSE <<"date_not_between_the_neighbours_of_its_serial">>)
 
-Verdict(o) == IF "kind" \in DOMAIN o /\ o.kind = "selfserial"
+(* two texts with a common beginning of any length (only its length is recorded) and short different ends: they order as *)
+(* their ends do                                                                                                        *)
+LongTextClauses(o) ==
+  LET r == o.r IN
+  IF ~(IsB(r.lt) /\ IsB(r.eq) /\ IsB(r.gt)) THEN <<"not_a_logical">>
+  ELSE IF T(r.lt) = SeqLt(o.ta, o.tb) /\ T(r.gt) = SeqLt(o.tb, o.ta) /\ T(r.eq) = (o.ta = o.tb) THEN <<>>
+  ELSE <<"long_text_order">>
+
+Verdict(o) == IF "kind" \in DOMAIN o /\ o.kind = "longtext"
+              THEN (IF LongTextClauses(o) = <<>> THEN <<"ok">> ELSE <<"bad">> \o LongTextClauses(o))
+              ELSE IF "kind" \in DOMAIN o /\ o.kind = "selfserial"
               THEN (IF SelfSerialClauses(o) = <<>> THEN <<"ok">> ELSE <<"bad">> \o SelfSerialClauses(o))
               ELSE IF "kind" \in DOMAIN o /\ o.kind = "laws3"
               THEN (IF Law3Clauses(o) = <<>> THEN <<"ok">> ELSE <<"bad">> \o Law3Clauses(o))
